@@ -269,7 +269,19 @@ def define_handler_units():
     c.exit_hook = greeting_exit
     c.raises = {"PathIOError": [], "CancelledError": [], "Exception": []}
     for verb, meth in VERBS.items():
-        for mode in ("SEQ",):
+        for mode in ("SEQ", "PIPE"):
+            if mode == "PIPE":
+                if meth in ("user", "pass_", "quit", "syst", "rest", "pasv", "epsv"):
+                    continue
+                # same handler, arbitrary same-session interference at every suspension point: only the C03 effect guards
+                c = contract(SERVER, f"Server.{meth}", props=["C03"], name=f"Server.{meth}#PIPE")
+                c.setup = make_handler_setup(meth, "PIPE")
+                c.uses = [(SERVER, "Server.get_paths"), (SERVER, "User.get_permissions#summary"), (SERVER, "Server._start_passive_server")]
+                c.exit_hook = lambda S, outcome: None
+                c.raises = {"BaseException": []}
+                c.mode = "PIPE"
+                c.pipe_only_c03 = True
+                continue
             c = contract(SERVER, f"Server.{meth}", props=["C02", "C03", "C04", "C05", "C11", "C13", "C16", "C17", "C19"] + (["C10"] if meth == "user" else []) + (["C14"] if meth == "abor" else []) + (["C20"] if meth == "pass_" else []) + (["C08"] if meth == "pwd" else []), name=f"Server.{meth}#{mode}")
             c.setup = make_handler_setup(meth, mode)
             c.uses = [(SERVER, "Server.get_paths"), (SERVER, "User.get_permissions#summary"), (SERVER, "Server._start_passive_server")]
